@@ -96,3 +96,71 @@ Section Over.
     eapply proj1. eapply (adaptor_session false sizes items es b' it' fs fuel Hn He Es Hb Hp Hpay Hwf Hfuel).
   Qed.
 End Over.
+
+(* skipped (non-binary) messages carry no payload *)
+Definition is_skip (i : item) : bool := match i with ISkip => true | _ => false end.
+Lemma payload_without_skips items : payload (filter (fun i => negb (is_skip i)) items) = payload items.
+Proof.
+  induction items as [|i t IH]; [reflexivity|]. destruct i as [d| |]; cbn [filter is_skip negb payload];
+    [rewrite IH; reflexivity | exact IH | reflexivity].
+Qed.
+Lemma no_end_without_skips items : no_end items = true -> no_end (filter (fun i => negb (is_skip i)) items) = true.
+Proof.
+  unfold no_end. induction items as [|i t IH]; intros H; [reflexivity|]. cbn [forallb filter] in *. apply andb_prop in H as [H1 H2].
+  destruct i; cbn [is_skip negb forallb] in *; try discriminate; exact (IH H2).
+Qed.
+
+Section Equiv.
+  Variable packet : Type.
+  Variable parse : bytes -> res packet.
+  Variable ver_of : packet -> option N.
+  Variable is_keepalive : packet -> bool.
+  Variable version : N.
+  Variable m : mode.
+  Variable verify : bool.
+  Variable pong : bytes.
+  Hypothesis parse_total : forall b, parse b <> Panic.
+  Notation session := (session packet parse ver_of is_keepalive version m verify pong).
+
+  (* the WebSocket session equals the TCP session of the same byte stream, however TCP segments it *)
+  Theorem ws_equals_tcp items sizes fs fuel tr fuel' :
+    no_end items = true -> payload items = concat fs -> Forall (wf_frame m) fs ->
+    (weight items <= length sizes)%nat ->
+    let es := fst (fst (serve false sizes [] items)) in
+    (length fs + length es < fuel)%nat ->
+    Forall ev_ok tr -> Forall is_data tr -> data_of tr = concat fs -> (length fs + length tr < fuel')%nat ->
+    filter (keep packet) (session fuel [] (es ++ [Eof])) = filter (keep packet) (session fuel' [] (tr ++ [Eof])).
+  Proof.
+    intros Hn Hpay Hwf Hlen es Hfuel Htr _ Hdata Hfuel'.
+    pose proof (ws_session packet parse ver_of is_keepalive version m verify pong parse_total items sizes fs fuel Hn Hpay Hwf Hlen Hfuel) as H1.
+    destruct (session_frames packet parse ver_of is_keepalive version m verify pong parse_total fuel' fs tr [] Hwf Htr Hdata Hfuel') as [H2 _].
+    fold es in H1. rewrite H1, H2. reflexivity.
+  Qed.
+
+  (* interleaved non-binary messages change nothing *)
+  Theorem ws_noise_irrelevant items sizes sizes' fs fuel fuel' :
+    no_end items = true -> payload items = concat fs -> Forall (wf_frame m) fs ->
+    let clean := filter (fun i => negb (is_skip i)) items in
+    (weight items <= length sizes)%nat -> (weight clean <= length sizes')%nat ->
+    let es := fst (fst (serve false sizes [] items)) in
+    let es' := fst (fst (serve false sizes' [] clean)) in
+    (length fs + length es < fuel)%nat -> (length fs + length es' < fuel')%nat ->
+    filter (keep packet) (session fuel [] (es ++ [Eof])) = filter (keep packet) (session fuel' [] (es' ++ [Eof])).
+  Proof.
+    intros Hn Hpay Hwf clean Hl Hl' es es' Hf Hf'.
+    pose proof (ws_session packet parse ver_of is_keepalive version m verify pong parse_total items sizes fs fuel Hn Hpay Hwf Hl Hf) as H1.
+    assert (Hpay' : payload clean = concat fs) by (unfold clean; rewrite payload_without_skips; exact Hpay).
+    pose proof (ws_session packet parse ver_of is_keepalive version m verify pong parse_total clean sizes' fs fuel'
+                  (no_end_without_skips items Hn) Hpay' Hwf Hl' Hf') as H2.
+    fold es in H1. fold es' in H2. rewrite H1, H2. reflexivity.
+  Qed.
+
+  (* closure: the adaptor reports end of stream, and a read that finds no complete frame returns Disconnected *)
+  Theorem closure_disconnects buf t tr c :
+    aread false [] (IEnd :: t) c = Some (Eof, [], t) /\
+    (try_decode packet parse ver_of is_keepalive version m verify pong buf = None ->
+     read packet parse ver_of is_keepalive version m verify pong buf (Eof :: tr) = ([Ret RDisconnected], buf, tr)).
+  Proof.
+    split; [reflexivity|]. intros H. rewrite read_unfold, H. reflexivity.
+  Qed.
+End Equiv.
